@@ -254,7 +254,7 @@ def numbers_from_words(words, path):
 def int_from_number(number, words, path):
     if isinstance(number, int):
         return number
-    if isinstance(number, float) and round(number) == number:
+    if isinstance(number, float) and math.isfinite(number) and round(number) == number:
         return int(number)
     raise RuntimeError(
         'Error interpreting %s="%s" as an integer expression%s'
@@ -266,7 +266,10 @@ def float_from_number(number, words, path):
     if isinstance(number, float):
         return number
     if isinstance(number, int):
-        return float(number)
+        try:
+            return float(number)
+        except OverflowError:
+            pass
     raise RuntimeError(
         'Error interpreting %s="%s" as a floating-point expression%s'
         % (path, str_from_words(words), words[0].where_str())
